@@ -51,7 +51,7 @@ PROPS = {
         "level_note": "Trusted: Lean kernel; the hand-written model of cup_ecdsa.rs and of the third-party crates it calls (listed in trusted_base); harness and diff. Unforgeability and collision resistance are hypotheses.",
     },
     "C15": {
-        "lean_modules": ["Omaha.Props.C15"],
+        "lean_modules": ["Omaha.Props.C15", "Omaha.Props.JsonText"],
         "streams": [{"name": "wire-req", "file": "wire-req", "args": ["wire-req"]}],
         "rule": "random configs (updater names / OS strings with quotes, backslashes, control and non-ASCII characters), all 8 parameter combinations, op sequences of 0..9 builder operations "
                 "(update check / ping / event with all code combinations / request id / session id) over a pool of 1..3 app ids so that ids repeat with differing cohorts, versions, fingerprints, "
@@ -60,10 +60,10 @@ PROPS = {
         "trusted_extra": ["modelled, not verified: serde derive attribute semantics and serde_json's compact writer/escaping (Json.render), http::HeaderValue validity, hashbrown clone preserving iteration order (extra fields are compared in the map's own order), uuid braced formatting"],
         "assumptions": ["GUIDs are drawn by the library (random in non-test builds); the harness reads them back from the serialised value and hands them to the model"],
         "level_text": "Machine-checked Lean 4 theorems over all operation sequences and all field values: apps_once_first_order (+ dedupL_nodup, mem_dedupL, dedupL_snoc), entry_spec (per app id: first insertion's app data, update check iff added with the params' flags, ping iff added, exactly the events added in order), ids_spec, applyAll_append (build_pure), app_members / event_members / body_members / cohort_only_set_fields / updatecheck_flags / ping_ad_eq_rd / headers_shape / build_spec at the JSON-value level; the text layer and the whole builder are tied to the real RequestBuilder byte-for-byte on every run.",
-        "level_note": "Trusted: Lean kernel; the model of serde/serde_json/http behaviour; harness and diff. The stretch theorem parse_render (text level) is not proved; byte-exactness is established by the correspondence only.",
+        "level_note": "Trusted: Lean kernel; the model of serde/serde_json/http behaviour; harness and diff. Text level: parse_render (Lemmas/JsonText: the model of serde_json's reader, in the mode every position accepts, reads the model of its compact writer back as the same document, for all documents with UTF-8 strings, u64 integers and nesting < 100) and body_reads_back (Props/JsonText: the body on the wire reads back as exactly bodyJson, nesting <= 6); that the two models are serde_json's behaviour is established by the correspondence (wire-req, resp).",
     },
     "C16": {
-        "lean_modules": ["Omaha.Props.C16"],
+        "lean_modules": ["Omaha.Props.C16", "Omaha.Props.JsonText"],
         "streams": [{"name": "resp", "file": "resp", "args": ["resp"], "outside_ok": True}],
         "rule": "documents from an independent generator of the response grammar (own JSON writer: random member order, whitespace, \\u escapes incl. surrogate pairs, extension attributes at every level where the protocol allows them, "
                 "unknown members elsewhere, null-vs-absent-vs-empty optionals, numbers at the u32/u64 boundaries), each also structurally mutated (drop / duplicate / retype / rename a member, number and string edge cases, injected known keys) "
@@ -74,7 +74,7 @@ PROPS = {
                           "panic-freedom / stack safety of serde_json itself is tested by the correspondence runs (incl. 10 000-deep documents), not proved"],
         "assumptions": ["a JSON array in the position of a derived struct is read positionally by serde; the model declares such documents outside its domain unless they are too short to succeed"],
         "level_text": "Machine-checked Lean 4 theorems: decode_encode (every well-formed Response value of the protocol grammar is decoded field for field, via decodePackage/Action/Manifest/Urls/UpdateCheck/StatusStruct/App/DayStart_enc), accepted_has_required + req_missing/req_duplicate/as*_mistyped (missing, duplicated or wrongly typed required members are rejected), opt_absent/opt_null/opt_empty_string (absent = null, empty is kept), prefix_neutral / no_prefix_unchanged / double_prefix_rejected, parse_total, full_urls_product/length/mem; the JSON text reader and the typing rules are run against the real parse_json_response on every invocation.",
-        "level_note": "Trusted: Lean kernel; the hand-written model of serde_json + serde derive; harness and diff. decode_encode is proved at the JSON-value level; the text-level round trip is established by the correspondence only.",
+        "level_note": "Trusted: Lean kernel; the hand-written model of serde_json + serde derive; harness and diff. decode_encode is proved at the JSON-value level and lifted to text by decode_text_encode (Props/JsonText: written by the writer model, with or without the safety prefix, then read by parse_json_response's model, every well-formed response comes back; hypothesis GoodV = strings UTF-8, numbers u64, also inside extension attributes).",
     },
     "C03": {
         "lean_modules": ["Omaha.Props.C03", "Omaha.Props.Draws"],
@@ -275,12 +275,12 @@ PROPS["C13"] = {
 }
 
 PROPS["C17"] = {
-    "lean_modules": ["Omaha.Props.C17"],
+    "lean_modules": ["Omaha.Props.C17", "Omaha.Props.JsonText"],
     "streams": [{"name": "mock", "file": "mock", "args": ["mock"]}],
     "rule": "stream mock: mock_omaha_server::handle_request is called in-process with requests built by the real RequestBuilder (update-check + ping requests, or event reports) for a 1..4-app set drawn in any order from 7 ids, with cohorts and all request parameters, a service URL with or without path / query / pre-existing or bare cup2key, decorated by the real StandardCupv2Handler configured with the server's latest key, one of its historical keys, an unknown key id, a known id with another key pair, or no CUP; the server is configured per app with each of the five response kinds, version / cohort / updates-disabled assertions that hold or not, an extra or missing app or no app at all, an ETag override, require_cup; the reply is parsed by the real client parser and verified by the real verifier for this exchange and against three other exchanges (other response body, other nonce, other request body); compared with the model: outcome (answer / 500 / assertion panic), response bytes, ETag kind, decoded document (canonical dump of every field), verification verdict against the specification and against the Lean verifier run on the mock's own signature; non-trivial = every case; distinct = (app count, key relation, URL, request kind, response kinds)",
     "trusted_extra": ["modelled, not verified: serde_json::Value key order (sorted) and to_vec, the url crate's query_pairs as far as the client's own cup2key parameter is concerned (no percent-decoding), hyper's Request/Response types; the TCP serving code and main.rs are outside the property (in-process handle_request)",
                       "the cryptographic hypothesis of client_verifies_mock_etag (a signature made by a key pair verifies under its public key) is an explicit hypothesis; the correspondence checks it on every signed reply with the real p256 and with the Lean P-256"],
     "assumptions": ["the client parser must reject the InvalidResponse kind — that is the configured outcome"],
     "level_text": "Machine-checked Lean 4 theorems: mock_apps_in_order + appVal_shape + appVal_id (one response app per requested app, in request order, with the requested id and the configured update check), client_accepts_mock_doc + decode_appVal + decode_responseVal / _err + decode_offer / decode_noupdate / decode_invalid / decode_updateCheckVal (the client's decoder accepts the server's document field for field for every configuration — and rejects exactly the deliberately invalid kind), mock_digest_eq_client (the digest the server signs is the client's transaction hash for the client's own cup2key, for every hash function), holdsKey_iff + inducedEtag_signed (an ETag is produced iff the named key id is the latest or a historical one), client_verifies_mock_etag (under the hypothesis that the signature verifies under the registered key, the client's verifier accepts hex(sig):hex(sha256(request)) for this exchange and returns the signature; uses hex_decode_encode, etagText_chars), etag_for_no_other (C01's injectivity: acceptance for another exchange needs a signature valid for another message), setResponses_effect / setResponses_keeps_keys (reconfiguration). Tied to mock-omaha-server/src/lib.rs by the in-process differential run with the real client on both ends.",
-    "level_note": "Trusted: Lean kernel; the hand-written model of the mock server; harness and diff. Partial: 'driving the real state machine against the in-process mock' is covered by stream smmock once registered (see DESIGN.md); sockets / hyper serving are out of scope.",
+    "level_note": "Trusted: Lean kernel; the hand-written model of the mock server; harness and diff. mock_doc_reads_back (Props/JsonText) lifts client_accepts_mock_doc to the bytes: the document the mock renders is read by the client's JSON text reader as exactly responseVal. Partial: 'driving the real state machine against the in-process mock' is not a registered stream (the mock stream goes through the real RequestBuilder + CUP handler, handle_request and the real response parser / verifier); sockets / hyper serving are out of scope.",
 }
